@@ -28,12 +28,13 @@ type member struct {
 	ctxEnded bool // its context was already cancelled when Run was entered
 	addedAt  int64
 	addErr   error
+	flav     string
 	pre      int // 0 not started, 1 running, 2 finished (before being handed over)
 }
 
 func newMember(h *Hist, id int) *member {
 	m := &member{id: id, outcome: 1 + simrt.Choose(3), blocks: simrt.Choose(2) == 1}
-	m.err = fmt.Errorf("member-%d-failure", id)
+	m.err, m.flav = newFlavErr("member-%d-failure", id)
 	m.svc = &srv.Service{Name: fmt.Sprintf("member%d", id)}
 	m.svc.Run = func(ctx context.Context) error {
 		m.runs++
@@ -59,7 +60,7 @@ func newMember(h *Hist, id int) *member {
 }
 
 func (m *member) String() string {
-	return fmt.Sprintf("m%d{%s blocks=%v pre=%d runs=%d [%d,%d] added@%d}", m.id, poNames[m.outcome], m.blocks, m.pre, m.runs, m.enter, m.exit, m.addedAt)
+	return fmt.Sprintf("m%d{%s/%s blocks=%v pre=%d runs=%d [%d,%d] added@%d}", m.id, poNames[m.outcome], m.flav, m.blocks, m.pre, m.runs, m.enter, m.exit, m.addedAt)
 }
 
 func c11Orchestrator(w *W) {
@@ -241,6 +242,7 @@ type job struct {
 	runs     int
 	accepted bool
 	addedAt  int64
+	flav     string
 }
 
 func c11Pool(w *W) {
@@ -280,6 +282,13 @@ func c11Pool(w *W) {
 			j.outcome = poError // the handler form does not recover panics by contract
 		}
 		j.err = fmt.Errorf("job-%d-failure", i)
+		if handler {
+			// "all errors are passed to the observer function": whatever they
+			// look like. (The aggregating WorkerPool "follows the semantics
+			// configured by the options", under which io.EOF and friends are
+			// not failures: C03's subject.)
+			j.err, j.flav = newFlavErr("job-%d-failure", i)
+		}
 		jobs = append(jobs, j)
 		delay := simrt.Choose(60)
 		simrt.Spawn(fmt.Sprintf("submit%d", i), func() {
@@ -330,7 +339,7 @@ func c11Pool(w *W) {
 	w.Config("%s workers=%d jobs=%d limited=%v raceStop=%v", name, workers, nJobs, limited, raceStop)
 	w.State(fmt.Sprintf("%s w=%d rs=%v", name, workers, raceStop))
 	for _, j := range jobs {
-		w.hist = append(w.hist, fmt.Sprintf("job%d %s accepted=%v@%d runs=%d", j.id, poNames[j.outcome], j.accepted, j.addedAt, j.runs))
+		w.hist = append(w.hist, fmt.Sprintf("job%d %s/%s accepted=%v@%d runs=%d", j.id, poNames[j.outcome], j.flav, j.accepted, j.addedAt, j.runs))
 	}
 	w.hist = append(w.hist, fmt.Sprintf("stop@%d wait=%v seen=%v", stopAt, waitErr, seen))
 	if !waited {
@@ -384,7 +393,7 @@ func c11Cleanup(w *W) {
 	var jobs []*job
 	for i := 0; i < nJobs; i++ {
 		j := &job{id: i, outcome: 1 + simrt.Choose(3)}
-		j.err = fmt.Errorf("cleanup-%d-failure", i)
+		j.err, j.flav = newFlavErr("cleanup-%d-failure", i)
 		jobs = append(jobs, j)
 		delay := simrt.Choose(50)
 		blocks := timeout > 0 && simrt.Choose(3) == 0 // runs until the cleanup timeout expires
@@ -450,7 +459,7 @@ func c11Cleanup(w *W) {
 	w.Config("Cleanup jobs=%d mode=%d race=%v timeout=%v", nJobs, mode, race, timeout)
 	w.State(fmt.Sprintf("Cleanup m=%d r=%v", mode, race))
 	for _, j := range jobs {
-		w.hist = append(w.hist, fmt.Sprintf("cleanup%d %s accepted=%v@%d runs=%d", j.id, poNames[j.outcome], j.accepted, j.addedAt, j.runs))
+		w.hist = append(w.hist, fmt.Sprintf("cleanup%d %s/%s accepted=%v@%d runs=%d", j.id, poNames[j.outcome], j.flav, j.accepted, j.addedAt, j.runs))
 	}
 	w.hist = append(w.hist, fmt.Sprintf("stop@%d wait=%v", stopAt, waitErr))
 	if !waited {
